@@ -15,6 +15,12 @@ chk("C06",
     "Coq proof (structural induction over strings via a 4-state scanner) + regenerated-model tie + vm_compute correspondence",
     "DESIGN.md §4 C06")
 
+chk("C19",
+    "Coq theorems over the model of QueryWalker.get (the two queries and the wrap loop over the ascending live-id list): every call returns exactly n rows in cyclic order from the cursor, cursor = last+1, DoesNotExist iff empty; coverage for all table sizes, batch sizes (k > N too), start points and arbitrary table changes that keep x: x is returned within floor((m+a)/k)+1 calls (m rows ahead of x, a rows entering that stretch), hence ceil(N/k) when rows are only removed. The unrestricted ceil(N/k)+1 reading is refuted in Coq (C19_starvation_refuted) and on the real walker (known finding KF-C19). Age filter: strict > min age in UTC seconds. Tie: hand-written model, every get() of the real QueryWalker on sqlite (static exhaustive small tables, dynamic random runs) and the real run_auto_verify age filter under 4 time zones evaluated by the model in Coq (T2).",
+    "Coq kernel+VM; peewee/sqlite give the query semantics (list reading validated by correspondence); live-id list supplied by the harness",
+    "Coq proof (rotation lemma on sorted lists + potential-function induction over runs) + vm_compute correspondence with the real QueryWalker",
+    "DESIGN.md §4 C19")
+
 ALL = [f"C{i:02d}" for i in range(1, 21)]
 NA_REASON = "check not yet built in this revision (planned: see DESIGN.md §7); nothing is claimed for it"
 
